@@ -665,6 +665,8 @@ def run_check(prop, tier, seed):
             elif kind == "violation":
                 p = write_replay(prop.id, "extra%d" % len(violations), rep)
                 violations.append((p, ""))
+            elif kind == "known":      # a listed finding reproduced by a probe of `extra`: (finding, its case line)
+                known.append((rep, msg))
             else:
                 notes.append(msg)
 
